@@ -35,15 +35,28 @@ static void c_enum(const mc_tok_t *A, int nA, int N, int k, long shard, const ch
 }
 static long c_enum_shards(int nA, int k) { return mc_ipow(nA, k) + 1; }
 
+/* strings found in the library objects (lib/checks.py: embedded_strings -> $MC_EMBED), plus eight fixed labels */
+static char EMB[600][64]; static int NEMB;
+static void emb_load(void) {
+    static const char *const FIX[8] = { "com", "net", "org", "arpa", "uk", "museum", "aaa", "zzzzq" };
+    NEMB = 0; for (int i = 0; i < 8; i++) snprintf(EMB[NEMB++], 64, "%s", FIX[i]);
+    const char *p = getenv("MC_EMBED"); if (!p) return;
+    FILE *f = fopen(p, "r"); if (!f) return;
+    char l[256];
+    while (NEMB < 600 && fgets(l, sizeof l, f)) { size_t n = strlen(l); while (n && (l[n - 1] == '\n' || l[n - 1] == '\r')) l[--n] = 0; if (n < 2 || n > 63) continue;
+        int dup = 0; for (int i = 0; i < NEMB; i++) if (!strcmp(EMB[i], l)) dup = 1; if (!dup) snprintf(EMB[NEMB++], 64, "%s", l); }
+    fclose(f);
+}
 static rt_csv_t CORPUS_RAW; static int corpus_loaded;
 static int corpus_load(void) {
     if (corpus_loaded) return 0;
     if (rt_load()) return -1;
     char p[1024]; snprintf(p, sizeof p, "%s/data/raw.csv", rt_repo()); if (rt_read_csv(p, &CORPUS_RAW, 1)) return -1;
+    emb_load();
     corpus_loaded = 1; return 0;
 }
 
-enum { CP_CROSS, CP_EMAIL, CP_LOCAL, CP_DOMAIN, CP_LITERAL, CP_TLD, CP_IDN, CP_BYTES, CP_LONG, CP_LONGIDN, CP_ALTDOT, CP_LABELLEN, CP_MAXLIT, CP_LPXDOM, CP_WHOLEDOM, CP_DEPTH, CP_SCALARS, CP_N };
+enum { CP_CROSS, CP_EMAIL, CP_LOCAL, CP_DOMAIN, CP_LITERAL, CP_TLD, CP_IDN, CP_BYTES, CP_LONG, CP_LONGIDN, CP_ALTDOT, CP_LABELLEN, CP_MAXLIT, CP_LPXDOM, CP_WHOLEDOM, CP_DEPTH, CP_EMBED, CP_SCALARS, CP_N };
 static const char *corpus_name(int i) {
     static const char *n[] = {
         "cross: all strings over {a 1 . - @ [ ] : SP ( 0x01 #}",
@@ -62,6 +75,7 @@ static const char *corpus_name(int i) {
         "lpxdom: 40 local-part shapes (quoted colons, dots, brackets, '@', digits, tags) x 36 domain parts (literals of both families, host names)",
         "wholedom: every code point of U+0080-2FFF, U+FE00-FFFF, U+1BCA0-1BCAF, U+E0000-E01FF (thorough: every scalar) as the whole domain, doubled, as both labels, rooted, as last label",
         "depth: 24 suffixes (reserved names, reserved look-alikes, table rows of 6 classes, unlisted) behind every sequence of 0-4 labels over {a, test, example, com, xn--p1ai, invalid}",
+        "embed: every string compiled into the library objects as last label, second-level label, and every ordered pair of them as the last two labels",
         "scalars: every non-ASCII Unicode scalar value as an atom character, quoted (alone, after and before a space) and in a domain label" };
     return n[i];
 }
@@ -92,6 +106,7 @@ static long corpus_shards(int i) {
     case CP_MAXLIT: return 6;
     case CP_LPXDOM: return 40;
     case CP_DEPTH: return 24;
+    case CP_EMBED: return (NEMB + 7) / 8;
     case CP_WHOLEDOM: return CORPUS_DEEP ? 0x110000 / 0x400 : 15;
     case CP_SCALARS: return 0x110000 / 0x1000;
     }
@@ -314,12 +329,23 @@ static void corpus_run(int ph, long shard, emit_fn emit, void *arg) {
             c_emit_str(emit, arg, "x@%s", u); c_emit_str(emit, arg, "x@%s%s", u, u); c_emit_str(emit, arg, "x@%s.%s", u, u); c_emit_str(emit, arg, "x@%s.", u); c_emit_str(emit, arg, "x@a.%s", u);
         }
     } break;
+    case CP_EMBED: {       /* a name the library treats specially is spelled somewhere in its objects: every embedded string in the places where names are looked at */
+        for (long i = shard * 8; i < shard * 8 + 8 && i < NEMB; i++) {
+            const char *o = EMB[i]; char u[64]; size_t k = 0; for (; o[k]; k++) u[k] = (char)toupper((unsigned char)o[k]); u[k] = 0;
+            c_emit_str(emit, arg, "x@%s", o); c_emit_str(emit, arg, "x@a.%s", o); c_emit_str(emit, arg, "x@a.b.%s", o); c_emit_str(emit, arg, "x@%s", u); c_emit_str(emit, arg, "x@a.%s", u);
+            c_emit_str(emit, arg, "x@%s.", o); c_emit_str(emit, arg, "x@a.%s.", o); c_emit_str(emit, arg, "%s@%s.%s", o, o, o);
+            for (int j = 0; j < NEMB; j++) { c_emit_str(emit, arg, "x@%s.%s", o, EMB[j]); c_emit_str(emit, arg, "x@a.%s.%s", o, EMB[j]); }
+        }
+    } break;
     case CP_DEPTH: {       /* label DEPTH: what stands in front of the last one or two labels, and how many labels there are, must not matter */
         static const char *const SUF[24] = { "test", "example", "invalid", "localhost", "onion", "example.com", "example.net", "example.org", "examples.com", "example.co", "test.com", "localhost.org",
             "com", "org", "arpa", "museum", "uk", "xn--p1ai", "aaa", "zzzzq", "co.uk", "com.example", "net.test", "example.example" };
         static const char *const LB[6] = { "a", "test", "example", "com", "xn--p1ai", "invalid" };
         const char *sf = SUF[shard]; char d[300];
         c_emit_str(emit, arg, "x@%s", sf);
+        { char U[64]; size_t k = 0; for (; sf[k]; k++) U[k] = (char)toupper((unsigned char)sf[k]); U[k] = 0;      /* upper case, rooted, both - bare and behind one label */
+          c_emit_str(emit, arg, "x@%s", U); c_emit_str(emit, arg, "x@%s.", sf); c_emit_str(emit, arg, "x@%s.", U);
+          c_emit_str(emit, arg, "x@host.%s", U); c_emit_str(emit, arg, "x@host.%s.", sf); c_emit_str(emit, arg, "x@host.%s.", U); c_emit_str(emit, arg, "x@HOST.%s.", U); }
         for (int a = 0; a < 6; a++) { c_emit_str(emit, arg, "x@%s.%s", LB[a], sf);
             for (int b = 0; b < 6; b++) { c_emit_str(emit, arg, "x@%s.%s.%s", LB[b], LB[a], sf);
                 for (int c = 0; c < 6; c++) { c_emit_str(emit, arg, "x@%s.%s.%s.%s", LB[c], LB[b], LB[a], sf);
